@@ -10,6 +10,7 @@ so worker count and completion order cannot change any digest.
 """
 from __future__ import annotations
 
+from . import covprobe
 import hashlib
 import json
 import os
@@ -94,8 +95,9 @@ def _child_exec(engine, scenario, ctx, wfd):
     try:
         import faulthandler
         faulthandler.dump_traceback_later(RUN_TIMEOUT_S - 5, exit=True)
+        covprobe.reset_for_child()
         out = engine.execute(scenario, ctx)
-        data = json.dumps({'ok': True, 'outcome': out.to_json()}).encode()
+        data = json.dumps({'ok': True, 'outcome': out.to_json(), 'cov': covprobe.take()}).encode()
     except BaseException:
         data = json.dumps({'ok': False, 'error': traceback.format_exc()[-3000:]}).encode()
     try:
@@ -147,6 +149,7 @@ def run_isolated(engine, scenario, ctx, timeout=RUN_TIMEOUT_S):
     res = json.loads(buf[4:4 + need])
     if not res['ok']:
         return {'harness_error': res['error']}
+    covprobe.merge(res.get('cov'))
     return res['outcome']
 
 
@@ -206,6 +209,7 @@ class Ctx:
         if r.get('error') == 'ChildDied':
             # the job process was killed by its wall-clock guard or crashed: a harness problem, never a verdict
             raise RuntimeError('simulated job died without a result (wall-clock guard or crash): %s' % json.dumps(job)[:300])
+        covprobe.merge(r.pop('_cov', None))
         return r
 
     def _kill_proc(self, hashseed):
@@ -245,6 +249,7 @@ def worker_main(argv):
     prop, shard, of, seed, first, count, deadline_s, out_path = argv[:8]
     shard, of, seed, first, count = int(shard), int(of), int(seed), int(first), int(count)
     deadline = time.monotonic() + float(deadline_s)
+    covprobe.start()
     engine = load_engine(prop)
     tier = os.environ.get('VERIF_TIER', 'quick')
     ctx = Ctx(engine)
@@ -297,6 +302,7 @@ def worker_main(argv):
         for v in res['violations']:
             agg['violations'].append({'run': i, 'scenario': scenario, **v})
     ctx.close()
+    covprobe.dump(prop)
     agg['transitions'] = sorted(agg['transitions'])
     agg['nontrivial_keys'] = sorted(agg['nontrivial_keys'])
     with open(out_path, 'w') as f:
